@@ -102,6 +102,9 @@ type partition struct {
 	shardID              models.ShardID
 	currentNodeID        models.NodeID
 	mutex                sync.Mutex
+	// replicaMutex makes "check the expected index, then append" of the follower side one step:
+	// one rpc stream handler per stream calls ReplicaLog, and two streams of a leader can overlap.
+	replicaMutex sync.Mutex
 }
 
 // NewPartition creates a writeTask ahead log partition(db+shard+family time+leader).
@@ -142,6 +145,9 @@ func (p *partition) ReplicaLog(replicaIdx int64, msg []byte) (int64, error) {
 	if p.closed.Load() {
 		return 0, constants.ErrPartitionClosed
 	}
+	p.replicaMutex.Lock()
+	defer p.replicaMutex.Unlock()
+
 	appendIdx := p.log.Queue().AppendedSeq() + 1
 	if replicaIdx != appendIdx {
 		return appendIdx, nil
@@ -162,6 +168,9 @@ func (p *partition) ReplicaAckIndex() int64 {
 
 // ResetReplicaIndex resets replica index.
 func (p *partition) ResetReplicaIndex(idx int64) {
+	p.replicaMutex.Lock()
+	defer p.replicaMutex.Unlock()
+
 	p.log.SetAppendedSeq(idx - 1)
 }
 
